@@ -120,6 +120,11 @@ Proof.
   eexists. split; [cbn; apply aget_aset_same|]. reflexivity.
 Qed.
 
+Lemma st_swallow (r : out C) : st (swallow r) = st r.
+Proof. reflexivity. Qed.
+Lemma acts_swallow (r : out C) : acts (swallow r) = acts r.
+Proof. reflexivity. Qed.
+
 Lemma sic_sends n cid cands tries o :
   forall a0, In a0 (acts (send_initial_create n cid cands tries o)) ->
   exists first x, a0 = Send (p_addr first) (MCreate cid (o_pid o) (n_pkbin n) (pub C x)) /\ x = sk_of C (o_x o)
@@ -165,4 +170,6 @@ Arguments sic_same {C}.
 Arguments sext_same {C}.
 Arguments sext_sends {C}.
 Arguments sic_sends {C}.
+Arguments st_swallow {C}.
+Arguments acts_swallow {C}.
 Arguments sext_one_peer {C}.
